@@ -79,6 +79,10 @@ def check_default(sh, db, doc, rng, tracer, origin):
             d = el.dbml
             n = dbml.count(d)
             sh.count('obs.containment_checks')
+            same = sum(1 for k2, e2 in top_elements(db) if k2 == kind and not (k2 == 'ref' and e2.inline) and e2.dbml == d)
+            if same > 1 and n == same:
+                sh.count('obs.containment_identical_twins')     # e.g. two sticky notes with the same name and text: once EACH
+                continue
             if n != 1 or not d:
                 sh.violation('contain', f'containment:dbml:{kind}:{"absent" if n == 0 else "repeated"}',
                              f'{kind} dbml occurs {n} times in db.dbml: {d[:200]!r}', case)
